@@ -194,10 +194,12 @@ def wrap_finalize(g, counter, problems):
     return True
 
 
-def run_one(rec, G, tag, structural, rounds):
+def run_one(rec, G, tag, structural, rounds, named=False):
     if not gen.well_formed(G):
         rec.drop()
         return
+    if named:
+        G = dict(G, name=diff.unique_name('vt_c10'))
     b = diff.build(rec, G)
     if b is None:
         return
@@ -278,7 +280,7 @@ def run_shard(rec):
         look = (i % 4 == 3)
         G = ClassGen(rec.rng, lookahead=look).grammar()
         run_one(rec, G, ('classes', 'lookahead' if look else 'plain'), structural=not look,
-                rounds=120 if quick else 500)
+                rounds=120 if quick else 500, named=(i % 5 == 2))
     if rec.shard == 0:
         metaparser_structure(rec, quick)
 
